@@ -157,6 +157,10 @@ fn floats(ctx: &mut Ctx, n: usize) {
         }
         if f.abs() < 1.0 && f != 0.0 && shortest.starts_with("0.") {
             check_literal(ctx, &format!("f{}", &shortest[1..]), &want, "float-no-leading-digit");
+            check_literal(ctx, &format!("f+{}", &shortest[1..]), &want, "float-no-leading-digit-signed");
+        }
+        if f.abs() < 1.0 && f != 0.0 && shortest.starts_with("-0.") {
+            check_literal(ctx, &format!("f-{}", &shortest[2..]), &want, "float-no-leading-digit-signed");
         }
         if f > 0.0 {
             check_literal(ctx, &format!("f+{shortest}"), &want, "float-plus-sign");
@@ -241,6 +245,9 @@ fn decimals(ctx: &mut Ctx, n: usize) {
         }
         if let Some(rest) = body.strip_prefix("0.") {
             check_literal(ctx, &format!("d{sign}.{rest}"), &want, "decimal-no-leading-digit");
+            if !neg {
+                check_literal(ctx, &format!("d+.{rest}"), &want, "decimal-no-leading-digit");
+            }
         }
         check_literal(ctx, &format!("d{sign}000{body}"), &want, "decimal-leading-zeros");
         // digits beyond the 28th fractional place: a parse error, or within one unit in the last kept place
@@ -346,7 +353,7 @@ fn strings(ctx: &mut Ctx, astral_samples: usize) {
             check_literal(ctx, &format!("\"x{c}y\""), &want, "string-raw");
         }
         let cp = c as u32;
-        for width in 1..=6 {
+        for width in 1..=12 {
             let hex = format!("{cp:0width$x}", width = width);
             if u32::from_str_radix(&hex, 16) == Ok(cp) {
                 check_literal(ctx, &format!("\"x\\u{{{hex}}}y\""), &want, "string-unicode-escape");
@@ -409,7 +416,7 @@ fn mixed_strings(ctx: &mut Ctx, n: usize) {
                         non_ascii_before_escape = true;
                     }
                     has_escape = true;
-                    let w = 1 + rng.below(6);
+                    let w = 1 + rng.below(11);
                     let hex = format!("{:0w$x}", c as u32, w = w);
                     text.push_str(&format!("\\u{{{}}}", if rng.chance(1, 2) { hex.to_uppercase() } else { hex }));
                     want.push(c);
@@ -471,7 +478,9 @@ fn words(ctx: &mut Ctx) {
     }
 }
 
-const SEPARATORS: [&str; 17] = [" ", "\t", "\n", "\r\n", "\u{a0}", "\u{2028}", "// c\n", "//\r\n", "  \n\t ", "// a // b\n\n", "\u{3000}", "\u{85}", "\r", "// c\r", "//\r", "\u{c}", "// é \"q\" \\\n"];
+const SEPARATORS: [&str; 22] = [" ", "\t", "\n", "\r\n", "\u{a0}", "\u{2028}", "// c\n", "//\r\n", "  \n\t ", "// a // b\n\n", "\u{3000}", "\u{85}", "\r", "// c\r", "//\r", "\u{c}", "// é \"q\" \\\n",
+    // a comment runs to the end of the LINE (\n or \r), whatever else it contains
+    "// x\u{2028}+ i9\n", "// x\u{2029}y\u{85}z\u{b}w\u{c}v\n", "//\t// /* */ \u{feff}\n", "\u{2029}", "\u{b}"];
 
 fn layout(ctx: &mut Ctx, n: usize) {
     let pool = pool();
@@ -570,7 +579,7 @@ fn finish(m: &Merged, tier: Tier) -> Finish {
         f.floors.push(floor(format!("family {fam}: {} (floor {min})", m.c(&format!("family:{fam}"))), m.c(&format!("family:{fam}")) >= min as u64));
     }
     let seps = m.prefix_count("layout:sep:");
-    f.floors.push(floor(format!("separator kinds used: {seps}/17, token pairs joined by nothing: {}", m.c("layout:no-separator")), seps == 17 && m.c("layout:no-separator") >= 1_000));
+    f.floors.push(floor(format!("separator kinds used: {seps}/22, token pairs joined by nothing: {}", m.c("layout:no-separator")), seps == 22 && m.c("layout:no-separator") >= 1_000));
     f.extras.insert("families".into(), json!(m.prefix_map("family:")));
     f.extras.insert("layout".into(), json!(m.prefix_map("layout:")));
     f.extras.insert("words".into(), json!(m.prefix_map("words:")));
